@@ -49,6 +49,12 @@ def inits():
             for th in ths:
                 for bk in bks:
                     out.append({'center_extrema': centre, 'burst_method': method, 'thresholds': th, 'burst_kwargs': bk})
+    # PARTIAL threshold dictionaries: the missing thresholds stay at the function defaults and are NOT 'given' (recompute_edges(r)
+    # lowers the given ones only)
+    for centre in ('peak', 'trough'):
+        out.append({'center_extrema': centre, 'burst_method': 'cycles', 'thresholds': {'amp_consistency_threshold': .6, 'period_consistency_threshold': .6,
+                                                                                        'min_n_cycles': 2}, 'burst_kwargs': None})
+    out.append({'center_extrema': 'peak', 'burst_method': 'cycles', 'thresholds': {'monotonicity': .5, 'amp_fraction_threshold': .2}, 'burst_kwargs': None})
     # tables WITHOUT sample columns (return_samples=False) - an option that interacts with recompute_edges
     for centre in ('peak', 'trough'):
         out.append({'center_extrema': centre, 'burst_method': 'cycles', 'thresholds': dict(S.T0, amp_consistency_threshold=.6), 'burst_kwargs': None,
@@ -61,6 +67,8 @@ def ops_for(method):
            ['rebind', 'min_n_cycles', 3]]
     if _TIER[0] != 'quick':
         ops.append(['fit', 'S2'])
+    elif method == 'amp':
+        ops[0] = ['fit', 'S2']        # S2 is the signal whose amplitude-burst mask depends on the detector's filter length
     if method == 'cycles':
         ops += [['setthr', 'monotonicity_threshold', .4], ['edges', None], ['edges', .05]]
     else:
